@@ -254,6 +254,7 @@ def parse_cbmc_text(text):
 SOLVER_FLAGS = {
     'sat': [],
     'kissat': ['--external-sat-solver', 'kissat'],
+    'cadical': ['--sat-solver', 'cadical'],
     'cvc5': ['--cvc5'],
     'z3': ['--z3'],
 }
